@@ -137,6 +137,21 @@ func formatAll(p *migrate.Plan, out map[string][]byte) error {
 // graphs builds FRESH current/desired graphs of an input through the sql/schema DSL. Nothing is
 // shared with any other call.
 func graphs(in *Input) (fromS, toS *schema.Schema, fromR, toR *schema.Realm) {
+	if in.RawFrom != "" || in.RawTo != "" {
+		// raw documents: evaluated (errors are checked by rawErr before), the missing side is an empty realm
+		fromR, toR = schema.NewRealm(), schema.NewRealm()
+		if in.RawFrom != "" {
+			if r, err := apis[in.Dialect].evalDoc(in.RawFrom); err == nil {
+				fromR = r
+			}
+		}
+		if in.RawTo != "" {
+			if r, err := apis[in.Dialect].evalDoc(in.RawTo); err == nil {
+				toR = r
+			}
+		}
+		return nil, nil, fromR, toR
+	}
 	side := func(m, m2 *dmodel.Model, other *dmodel.Model) (*schema.Schema, *schema.Realm) {
 		var s *schema.Schema
 		switch {
@@ -305,8 +320,23 @@ func stmtIdents(p *migrate.Plan) []string {
 }
 
 // diffPlan runs the differ and the planner of the dialect on fresh graphs of the input.
+// rawErr evaluates the raw documents of an input and returns the evaluation error, if any.
+func rawErr(in *Input) error {
+	for _, doc := range []string{in.RawFrom, in.RawTo} {
+		if doc != "" {
+			if _, err := apis[in.Dialect].evalDoc(doc); err != nil {
+				return err
+			}
+		}
+	}
+	return nil
+}
+
 func diffPlan(in *Input) (changes []schema.Change, plan *migrate.Plan, err error) {
 	a := apis[in.Dialect]
+	if err := rawErr(in); err != nil {
+		return nil, nil, fmt.Errorf("eval: %w", err)
+	}
 	fromS, toS, fromR, toR := graphs(in)
 	if in.Realm {
 		changes, err = a.diff.RealmDiff(fromR, toR, schema.DiffNormalized())
@@ -337,6 +367,11 @@ func diffPlan(in *Input) (changes []schema.Change, plan *migrate.Plan, err error
 func Outputs(in *Input) map[string][]byte {
 	out := map[string][]byte{}
 	a := apis[in.Dialect]
+	if err := rawErr(in); err != nil {
+		// the document is rejected: that (and how) is the output
+		out["error.eval"] = []byte(err.Error())
+		return out
+	}
 	changes, plan, err := diffPlan(in)
 	if changes != nil {
 		out["changes"] = []byte(describe(changes))
